@@ -45,12 +45,13 @@ DimPar(f, p, g) ==
     [] f = "Rod1D"  -> [kappa |-> DN(0, 2, -1), L |-> Len_, TL |-> dTmp, TR |-> dTmp,
                         alpha1 |-> None0, alpha2 |-> None0, beta1 |-> None0, beta2 |-> None0,      \* homogeneous conditions: the coefficients only select the condition
                         gamma1 |-> dTmp, gamma2 |-> dTmp]
+    [] f = "Guderley" -> [rho0 |-> dRho, gamma |-> None0, geometry |-> None0]
     [] f = "Hutchens1" -> [k |-> <<Q1, Q1, <<-3, 1>>, <<-1, 1>>>>, cp |-> <<Q0, <<2, 1>>, <<-2, 1>>, <<-1, 1>>>>,
                            rho |-> dRho, Tb |-> dTmp, T0 |-> dTmp, b |-> Len_]
 
 (* dimension vectors of the returned fields *)
 DimField(f) ==
-  CASE f \in {"Noh", "Noh2", "Sedov", "RiemannIG", "EHEP", "Mader"} -> HydroFields @@ [xdet |-> Len_]
+  CASE f \in {"Noh", "Noh2", "Sedov", "RiemannIG", "EHEP", "Mader", "Guderley"} -> HydroFields @@ [xdet |-> Len_]
     [] f \in {"Cog1", "Cog8"} -> HydroFields @@ [temperature |-> dTmp]
     [] f = "EPpiston" -> HydroFields @@ [deviatoric_stress |-> dPrs]
     [] f \in {"Kenamond1", "Kenamond2", "Kenamond3", "DSDcyl"} -> [burntime |-> dTim]
@@ -65,6 +66,7 @@ Group(f) ==
     [] f \in {"Kenamond1", "Kenamond2", "Kenamond3", "DSDcyl"} -> {"L", "T"}
     [] f \in {"Cog1", "Cog8", "Hutchens1"} -> {"M", "L", "T", "K"}
     [] f = "Rod1D" -> {"L", "T", "K"}
+    [] f = "Guderley" -> {"M"}                          \* r_shock = (-t_L)^(1/lambda) carries a dimensional constant 1: only the unit of mass is free
     [] OTHER -> {"M", "L", "T"}
 
 (* factor by which a quantity of dimension d changes: prod scale_i ^ d_i  (SL arithmetic) *)
